@@ -16,7 +16,8 @@ AIM_NEG_CFG = ("CONSTANTS\n  Ds = {3}\n  Ts = {1}\nINIT AIMInit\nNEXT AIMNext\nI
 def classify(sc):
     p = sc["params"]
     d = len(sc["attrs"])
-    if sc["mech"] == "AIM" and (p.get("rounds") or 16 * d) < 0.9 * d:
+    deff = len(set(a for c in p["workload"] for a in c)) if (sc["mech"] == "AIM" and p.get("workload")) else d
+    if sc["mech"] == "AIM" and (p.get("rounds") or 16 * d) < 0.9 * deff:
         return {"mechanism": "AIM", "cond": "rounds<0.9d"}
     if sc["mech"] == "MWEM":
         return {"mechanism": "MWEM", "bounded": bool(p.get("bounded")), "noise": p.get("noise", "gaussian")}
